@@ -211,7 +211,7 @@ def gen_pairs(tier, seed):
                     todo = [(c, e) for c in CALCS for e in ENTRIES]
                 elif thorough:               # every estimator through the calculator and one more entry point in turn
                     todo = [(c, e) for k, c in enumerate(CALCS)
-                            for e in (("calc", others[(t + k) % 3]) if (t + k) % 2 == 0 else ("calc",))]
+                            for e in (("calc", others[(t + k) % 3]) if (t + k) % 3 == 0 else ("calc",))]
                 else:                        # quick: one estimator in turn (all of them over any 7 consecutive pairs)
                     todo = [(CALCS[t % 7], "calc")]
                 for calc, entry in todo:
@@ -251,7 +251,7 @@ def gen_counts(tier, seed):
         for ms in _count_multisets(cols, size):
             cl = list(ms)
             rnd.shuffle(cl)
-            for calc in (["tn93", "paralinear", "logdet"] if thorough else ["tn93"]):
+            for calc in (["tn93", "paralinear"] if thorough else ["tn93"]):
                 yield ["calc", calc, "dna", ["s1", "s2"], ["".join(c[0] for c in cl), "".join(c[1] for c in cl)], "array"]
 
 
@@ -279,7 +279,7 @@ def gen_sparse_counts(tier, seed):
                     cl = [c for c, m in zip(cells, comp) for _ in range(m)]
                     rnd.shuffle(cl)
                     seqs = ["".join(c[0] for c in cl), "".join(c[1] for c in cl)]
-                    for calc in (("paralinear", "logdet") if thorough else ("paralinear",)):
+                    for calc in (("paralinear", "logdet") if (thorough and size == 7) else ("paralinear",)):
                         yield ["calc", calc, "dna", ["s1", "s2"], seqs, "array"]
 
 
@@ -290,7 +290,7 @@ def gen_triples(tier, seed):
     others = [e for e in ENTRIES if e != "calc"]
     if thorough:
         jobs = [("ACGN", 3, [c for c in CALCS if c != "logdet_notk"], None),
-                ("AC-", 4, ["pdist", "jc69"], ["calc", "dm_drop"])]
+                ("AC-", 4, ["pdist", "jc69"], ["dm_drop"])]
     else:
         jobs = [("ACN", 3, ["pdist", "hamming", "jc69"], None),
                 ("ACGN", 2, ["tn93", "paralinear", "logdet"], ["calc", "dm"])]
@@ -587,7 +587,7 @@ BOUNDED = {
         "gen": gen_pairs, "contract": contract_estimators, "functions": _EST_FUNCS,
         "bound": "every pair of equal-length strings of length 1..3 over ACGT-N; length <= 2: x 7 estimators (pdist, hamming, "
                  "jc69, tn93, paralinear, logdet, logdet without TK adjustment) x 4 entry points; length 3: quick one estimator "
-                 "per pair in turn through the calculator object, thorough all 7 through the calculator and, every second time, one "
+                 "per pair in turn through the calculator object, thorough all 7 through the calculator and, every third time, one "
                  "further entry point in turn",
         "rule": _EST_RULE, "shards": 16,
     },
@@ -596,20 +596,20 @@ BOUNDED = {
         "bound": "two sequences realising every 4x4 count matrix of sum 1..4 (thorough 1..5): columns in a seeded order, "
                  "with 1-3 columns holding one of -N?RYW interspersed and (sum <= 3, thorough all) also without; 7 "
                  "estimators; calculator object, plus aln.distance_matrix for sum <= 3 (thorough: all noisy ones); "
-                 "sum 6 as well: tn93 (thorough also paralinear, logdet) through the calculator object",
+                 "sum 6 as well: tn93 (thorough also paralinear) through the calculator object",
         "rule": _EST_RULE, "shards": 16,
     },
     "estimators_sparse_counts": {
         "gen": gen_sparse_counts, "contract": contract_estimators, "functions": _EST_FUNCS,
         "bound": "two sequences realising every 4x4 count matrix of sum 7 (thorough 7..8) with 4 (thorough 2..4) non-zero "
-                 "cells, columns in a seeded order; paralinear (thorough also logdet) through the calculator object",
+                 "cells, columns in a seeded order; paralinear (thorough, sum 7: also logdet) through the calculator object",
         "rule": _EST_RULE, "shards": 16,
     },
     "estimators_triples": {
         "gen": gen_triples, "contract": contract_estimators, "functions": _EST_FUNCS,
         "bound": "three sequences: every multiset of <= 3 columns over {A,C,N}^3 x (pdist, hamming, jc69), of <= 2 columns over "
                  "{A,C,G,N}^3 x (tn93, paralinear, logdet); thorough: <= 3 columns over {A,C,G,N}^3 x 6 estimators and <= 4 "
-                 "columns over {A,C,-}^3 x (pdist, jc69); 4 entry points up to 2 columns, beyond that the calculator object "
+                 "columns over {A,C,-}^3 x (pdist, jc69) through distance_matrix(drop_invalid=True); 4 entry points up to 2 columns, beyond that the calculator object "
                  "and (thorough: every second time) one further entry point in turn; three name sets, columns in a seeded order",
         "rule": _EST_RULE, "shards": 16,
     },
